@@ -70,8 +70,8 @@ def velocity_dispatch(msg, source):
     tc = F.tc_of(F.hexbits(msg))
     o = outcome(ADSB.velocity, msg, source)
     if tc is not None and 5 <= tc and tc <= 8:
-        assert o == ("ret", adsb_spec.surface_velocity_opaque(msg, source)), "velocity routes TC5-8 to surface_velocity"
+        assert o == outcome(adsb_spec.surface_velocity_opaque, msg, source), "velocity routes TC5-8 to surface_velocity"
     elif tc == 19:
-        assert o == ("ret", adsb_spec.airborne_velocity_opaque(msg, source)), "velocity routes TC19 to airborne_velocity"
+        assert o == outcome(adsb_spec.airborne_velocity_opaque, msg, source), "velocity routes TC19 to airborne_velocity"
     else:
         assert o == ("raise", "RuntimeError"), "velocity rejects every other type code"
